@@ -181,6 +181,8 @@ impl Endpoint {
                 uri: None,
             };
 
+            // replace any Content-Length set by the application with the actual body size
+            message.msg.headers.remove(&Name::CONTENT_LENGTH);
             message
                 .msg
                 .headers
@@ -225,6 +227,8 @@ impl Endpoint {
                 uri: None,
             };
 
+            // replace any Content-Length set by the application with the actual body size
+            message.msg.headers.remove(&Name::CONTENT_LENGTH);
             message
                 .msg
                 .headers
